@@ -40,6 +40,7 @@ def run_shard(prop, spec, tmpdir, idx):
     timeout = float(spec.get("timeout_s", 1800))
     t0 = time.monotonic()
     env = dict(os.environ)
+    env.update(spec.get("env") or {})
     env["VERIF_SCRATCH"] = str(Path(tmpdir) / f"scratch_{idx}")
     Path(env["VERIF_SCRATCH"]).mkdir(exist_ok=True)
     try:
@@ -125,12 +126,14 @@ def main(argv=None):
     if args.replay:
         rep = core.decode_specials(json.loads(Path(args.replay).read_text()))
         specs = [{"name": "replay", "replay": rep, "tier": args.tier, "seed": seed,
-                  "timeout_s": 1800}]
+                  "timeout_s": 1800, "env": dict(getattr(mod, "ENV", None) or {})}]
     else:
         specs = mod.plan(args.tier, seed)
         for s in specs:
             s.setdefault("tier", args.tier)
             s.setdefault("seed", seed)
+            if getattr(mod, "ENV", None):
+                s.setdefault("env", dict(mod.ENV))
         if args.only:
             specs = [s for s in specs if args.only in s["name"]]
     jobs = args.jobs or int(os.environ.get("VERIF_JOBS", "0")) or (
